@@ -229,7 +229,20 @@ func ruleVariableTraversals(r *Run) {
 	h := r.Anchor("R10d", "pebbles.(*Gateway).Handler")
 	if h != nil {
 		rs := r.readSet(h)
+		// the variable header counts only where a sub-request is put together (its text, its
+		// variable list, its values): being part of the plan-cache key (repair b8cc31b) does not
+		// bring a declared default to a service (fourth audit: that read had discharged this)
+		var builders []*ssa.Function
+		for _, n := range []string{"planner.(*QueryPlanStep).SetComputedValues", "executor.(*DepthExecutor).getVariables", "planner.(*QueryPlan).SetComputedValues"} {
+			if f := r.P.Fn(n); f != nil {
+				builders = append(builders, f)
+			}
+		}
+		brs := r.readSet(builders...)
 		for _, k := range []string{"OperationDefinition.Operation", "OperationDefinition.Name", "OperationDefinition.SelectionSet", "OperationDefinition.VariableDefinitions"} {
+			if k == "OperationDefinition.VariableDefinitions" {
+				rs = map[string]bool{k: len(builders) > 0 && (brs[k] || brs["VariableDefinition.DefaultValue"])}
+			}
 			if rs[k] {
 				r.OK("R10d", fnName(h), "request path reads "+k, r.P.pos(h.Pos()), "read by code reachable from the handler")
 			} else {
